@@ -195,8 +195,8 @@ def degenerate_cases(tier):
            m.Function(f2, [m.Function(f2, [x, x]), m.Function(f2, [x, x])]), m.BVAnd(bv, bv), m.BVConcat(bv, bv), m.BVULT(bv, bv),
            m.BVAdd(bv, bv), m.StrConcat(st, st), m.StrConcat(st, st, st), m.StrContains(st, st), m.Select(arr, m.Select(arr, x)),
            m.Store(arr, x, x), m.Store(m.Store(arr, x, y), x, y), m.AllDifferent(x, x), m.ExactlyOne(p, p), m.AtMostOne(a, a, a),
-           m.Array(INT, x, {x: x}), m.Array(INT, x, {x: x, m.Plus(x, m.Int(0)): x}),
-           m.create_node(node_type=op.ARRAY_VALUE, args=(x, y, x, y, z), payload=INT),         # the key y twice
+           m.Array(INT, x, {m.Int(1): x}), m.Array(INT, x, {m.Int(1): x, m.Int(2): x}),
+           m.create_node(node_type=op.ARRAY_VALUE, args=(x, m.Int(1), x, m.Int(1), z), payload=INT),         # the key 1 twice
            m.create_node(node_type=op.AND, args=(a, a, a)), m.create_node(node_type=op.PLUS, args=(x, x, x, x))]
     for t in rep:
         yield env, t, "degenerate:repeated-argument"
